@@ -19,7 +19,8 @@ MANIFEST = dict(
     technique="Lean 4 proof over a lock-protocol model + recorded lock traces accepted by the compiled model + linearizability oracle + TSan")
 MODULE = "IwModel.Props.C07"
 THEOREMS = ["IwModel.C07.order_no_deadlock", "IwModel.C07.exclusive_excludes", "IwModel.C07.session_ordered",
-            "IwModel.C07.accepted_calls_no_deadlock", "IwModel.C07.self_deadlock_witness"]
+            "IwModel.C07.accepted_calls_no_deadlock", "IwModel.C07.self_deadlock_witness",
+            "IwModel.C07.atomic_effects_linearize", "IwModel.C07.effects_bracketed_by_writer_lock"]
 
 EXCL_OPS = ("sync", "cp", "dbnew", "dbdel", "dbget", "bkp")
 
